@@ -64,7 +64,16 @@ RULE = ("cases = (a) subtrees of the history space: all op sequences (enter(call
 ASSUMPTIONS = ["copy.deepcopy and dict equality are the snapshot oracle", "ast.literal_eval is the documented value parser",
                "the global config is only touched under planted 'vf*' keys and verified unchanged after every case"]
 BUDGET = {"quick": 35, "thorough": 540}
-FLOORS = {"quick": {"evaluations": 1, "distinct_nontrivial": 1}, "thorough": {"evaluations": 1, "distinct_nontrivial": 1}}
+FLOORS = {
+    "quick": {"evaluations": 1100, "distinct_nontrivial": 1100,
+              "counters": {"histories": 440000, "histories_private": 415000, "histories_global": 14000, "set_calls": 1200000,
+                           "exits_checked": 600000, "raising_sets_checked": 450000, "get_checks": 2800000,
+                           "global_config_verifications": 220, "update_checks": 4000, "merge_checks": 1300,
+                           "collect_env_checks": 2700, "serialize_roundtrips": 1350},
+              "sets": {"config_states": 4800, "random_histories": 9500}},
+    "thorough": {"evaluations": 1100, "distinct_nontrivial": 1100,
+                 "counters": {"histories": 440000}},
+}
 EXHAUSTIVE_SPACE = {
     "quick": ("private config= dict: all histories of <= 3 operations over the full alphabet of 44 set-calls and all histories of "
               "<= 4 operations over the reduced alphabet of 12 set-calls, from each of the 8 initial states; global "
